@@ -36,10 +36,20 @@ def dims_all_one(run, shape):
                 return False
         else:
             s = run.solver()
+            s.set("timeout", 3000)
             s.add(d != 1)
             if s.check() != z3.unsat:
                 return False
     return True
+
+
+def _scalarize(run, v):
+    if isinstance(v, SNd) and v.shape is not None and dims_all_one(run, v.shape):
+        return SArr1(v.elem(tuple(0 for _ in v.shape)), len(v.shape))
+    return None
+
+
+X.SCALARIZE.append(_scalarize)
 
 
 def nd_scalar(it, a):
@@ -384,3 +394,104 @@ def _install_ext():
 HOOKS_COPY = []
 EXTRA_EXT = {}
 _install_ext()
+
+
+# -- spec vocabulary over raw inputs ---------------------------------------------
+def _rx(self, e, fr):
+    v = self.ev(e.args[0], fr)
+    if not (isinstance(v, SOpaque) and v.sort == "RawX"):
+        raise Unsupported("expected a raw X input, got %r" % (v,))
+    return v
+
+
+def _spec_is_df(self, e, fr):
+    return _rx(self, e, fr).meta["is_df"]
+
+
+def _spec_width(self, e, fr):
+    m = _rx(self, e, fr).meta
+    nc = self.ctx.uf("cols_len", self.ctx.sort("Cols"), INT)
+    return z3.If(m["is_df"], nc(m["cols"]), z3.If(m["ndim"] == 2, m["d1"], z3.If(m["ndim"] == 1, m["d0"], 1)))
+
+
+def _spec_rows(self, e, fr):
+    """rows after the streaming coercion (vectors become one row)"""
+    m = _rx(self, e, fr).meta
+    return z3.If(z3.Or(m["is_df"], m["ndim"] == 2), m["d0"], 1)
+
+
+def _spec_brows(self, e, fr):
+    """rows after the batch coercion (vectors become one column)"""
+    m = _rx(self, e, fr).meta
+    return z3.If(z3.Or(m["is_df"], m["ndim"] == 2), m["d0"], z3.If(m["ndim"] == 1, m["d0"], 1))
+
+
+def _spec_bwidth(self, e, fr):
+    m = _rx(self, e, fr).meta
+    nc = self.ctx.uf("cols_len", self.ctx.sort("Cols"), INT)
+    return z3.If(m["is_df"], nc(m["cols"]), z3.If(m["ndim"] == 2, m["d1"], 1))
+
+
+def _spec_cols(self, e, fr):
+    return SOpaque("Cols", _rx(self, e, fr).meta["cols"])
+
+
+def _spec_cols_equal(self, e, fr):
+    a = self.ev(e.args[0], fr)
+    b = self.ev(e.args[1], fr)
+    if isinstance(a, SOpt):
+        a = a.val
+    if isinstance(b, SOpt):
+        b = b.val
+    return _cols_equals(self.ctx.models, self, a, None, "equals", [b], {}, fr, e)
+
+
+def _spec_xval(self, e, fr):
+    """value of the (single-row) input at column j, independent of the container"""
+    m = _rx(self, e, fr).meta
+    j = b2i(z(self.ev(e.args[1], fr)))
+    return m["vals"][z3.IntVal(0), j]
+
+
+def _spec_bval(self, e, fr):
+    """value of a batch input at (i, j) after the batch coercion"""
+    m = _rx(self, e, fr).meta
+    i = b2i(z(self.ev(e.args[1], fr)))
+    j = b2i(z(self.ev(e.args[2], fr)))
+    return z3.If(z3.Or(m["is_df"], m["ndim"] == 2), m["vals"][i, j], m["vals"][z3.IntVal(0), i])
+
+
+X.Interp.spec_is_df = _spec_is_df
+X.Interp.spec_width = _spec_width
+X.Interp.spec_rows = _spec_rows
+X.Interp.spec_brows = _spec_brows
+X.Interp.spec_bwidth = _spec_bwidth
+X.Interp.spec_cols = _spec_cols
+X.Interp.spec_cols_equal = _spec_cols_equal
+X.Interp.spec_xval = _spec_xval
+X.Interp.spec_bval = _spec_bval
+
+
+def _make_nd(models, it, reg, ty, name, fresh):
+    if ty == "Nd2":
+        run = it.run
+        d0 = run.fresh("Int", name + "!d0") if fresh else z3.Int(name + "!d0")
+        d1 = run.fresh("Int", name + "!d1") if fresh else z3.Int(name + "!d1")
+        run.assume(z3.And(d0 >= 0, d1 >= 0))
+        srt = z3.ArraySort(INT, INT, REAL)
+        arr = run.fresh(srt, name + "!data") if fresh else z3.Const(name + "!data", srt)
+        return SNd((d0, d1), lambda idx, arr=arr: arr[b2i(z(idx[0])), b2i(z(idx[1]))], src=("fresh", None))
+    return NotImplemented
+
+
+HOOKS["make_symbolic"].append(_make_nd)
+
+
+def _spec_ncols(self, e, fr):
+    v = self.ev(e.args[0], fr)
+    if isinstance(v, SOpt):
+        v = v.val
+    return self.ctx.uf("cols_len", self.ctx.sort("Cols"), INT)(v.t)
+
+
+X.Interp.spec_ncols = _spec_ncols
